@@ -32,9 +32,9 @@ static std::size_t norm_len(const std::uint8_t* t, std::size_t n) {
 static std::uint8_t tb1[key_encoder::maxlen + 4], tb2[key_encoder::maxlen + 4];
 HARNESS(h_text_boundary) {
   constexpr std::size_t M = key_encoder::maxlen;
-  std::size_t n1 = in_range(M - 2, M + 2), n2 = in_range(M - 2, M + 2);
+  std::size_t n1 = in_range(M - 2, M + 1000), n2 = in_range(M - 2, M + 1000);   // includes lengths that no longer fit the run-length type
   for (std::size_t i = 0; i < M - TAIL; i++) { tb1[i] = 0x41; tb2[i] = 0x41; }
-  for (std::size_t i = M - TAIL; i < M + 2; i++) { tb1[i] = in_u8(); tb2[i] = in_u8(); }
+  for (std::size_t i = M - TAIL; i < M + 4; i++) { tb1[i] = in_u8(); tb2[i] = in_u8(); }
   std::size_t m1 = norm_len(tb1, n1), m2 = norm_len(tb2, n2);
   for (std::size_t i = M - TAIL; i < M; i++) {
     if (i < m1) ASSUME(tb1[i] != 0);
